@@ -247,6 +247,42 @@ func runProducers(c *Ctx, P string, orc outOracle) {
 			fail(w, "bytes", map[string]interface{}{"B": b, "quoted": q(string(b))}, d)
 		}
 	})
+	// (c3) systematic size family
+	c.Section(P+"/sizes", map[string]interface{}{"sizes": "every n in 0..70", "shapes": len(sizeShapes)}, 71*len(sizeShapes)*2, func(i int, w *Worker) {
+		v := i % 2
+		n, sh := (i/2)/len(sizeShapes), (i/2)%len(sizeShapes)
+		f, args := sizeShapes[sh].Mk(n, v)
+		w.Eval()
+		var dt string
+		if f == "" {
+			var out redact.RedactableString
+			if _, pan := recoverTo(func() { out = redact.Sprint(args...) }); !pan {
+				if d := orc([]byte(out)); d != "" {
+					dt = fmt.Sprintf("Sprint(%d operands) -> %q: %s", n, out, d)
+				}
+			}
+		} else {
+			dt = produceFmt(f, args, orc, w.SeenB)
+		}
+		if dt != "" {
+			fail(w, "sizes", map[string]interface{}{"N": n, "Shape": sh, "V": v}, dt)
+		}
+	})
+	// (e2) long Join lists
+	c.Section(P+"/join-long", map[string]interface{}{"list_lengths": "0..70"}, 71*3, func(i int, w *Worker) {
+		n, di := i/3, i%3
+		seeds := joinSeeds()
+		lst := make([]redact.RedactableString, n)
+		for k := range lst {
+			lst[k] = seeds[k%len(seeds)]
+		}
+		w.Eval()
+		out := []byte(redact.Join(joinDelims[di], lst))
+		w.SeenB(out)
+		if d := orc(out); d != "" {
+			fail(w, "join", map[string]interface{}{"list": lst, "delim": joinDelims[di]}, fmt.Sprintf("Join of %d = %q: %s", n, out, d))
+		}
+	})
 	// (e) Join / JoinTo over library-produced redactables
 	rs := joinSeeds()
 	nr := len(rs)
